@@ -7,7 +7,7 @@ prop=${2:-$(python3 -c "import json;print(json.load(open('$out/meta.json'))['pro
 : > $out/check_output.txt; chk=0; detected_by=""
 git -C /repo apply $out/patch.diff || exit 2
 for pp in $(echo $prop | tr ',' ' '); do
-  (cd /verif && ./bin/govc check $pp >> $out/check_output.txt 2>&1); ex=$?
+  (cd /verif && GOVC_OUT=/tmp/seedout ./bin/govc check $pp >> $out/check_output.txt 2>&1); ex=$?
   echo "check $pp exit=$ex" >> $out/check_output.txt
   if [ $ex -eq 1 ]; then chk=1; detected_by="$detected_by $pp"; fi
   if [ $ex -ne 0 ] && [ $chk -eq 0 ]; then chk=$ex; fi
